@@ -143,7 +143,7 @@ func genPromProgram(r *Rand, maxNodes int, allowSlow bool) promProgram {
 			tag++
 			name := fmt.Sprintf("%s%d", prefix, len(vis))
 			g := &pgnode{}
-			kinds := []string{"leaf", "leaf", "spin", "boom"}
+			kinds := []string{"leaf", "leaf", "spin", "boom", "resolved"}
 			if allowSlow {
 				kinds = append(kinds, "slow", "slow")
 			}
@@ -159,6 +159,11 @@ func genPromProgram(r *Rand, maxNodes int, allowSlow bool) promProgram {
 				n := r.Range(0, 50)
 				fmt.Fprintf(sb, "%s%s := leaf(%d)\n", indent, name, n)
 				g.val = pval{v: n*2 + 1}
+			case "resolved":
+				// a promise that is settled before anybody can await it
+				n := r.Range(0, 50)
+				fmt.Fprintf(sb, "%s%s := Promise.resolved(%d)\n", indent, name, n)
+				g.val = pval{v: n}
 			case "slow":
 				n := r.Range(0, 50)
 				ms := Pick(r, []int{1, 2, 5, 50, 3000})
@@ -260,6 +265,28 @@ func genPromProgram(r *Rand, maxNodes int, allowSlow bool) promProgram {
 		for i := len(order) - 1; i > 0; i-- {
 			j := r.Intn(i + 1)
 			order[i], order[j] = order[j], order[i]
+		}
+		if len(vis) >= 2 && r.Chance(0.3) {
+			// Promise.wait over two or three of the visible promises (a natively settled promise:
+			// a goroutine awaits them in order and rejects with the first error it meets)
+			nw := r.Range(2, 3)
+			var names []string
+			res := "ok"
+			for k := 0; k < nw; k++ {
+				w := vis[r.Intn(len(vis))]
+				names = append(names, w.name)
+				if res == "ok" {
+					need(w.id)
+					if wv := graph[w.id].val; wv.err {
+						res = fmt.Sprintf("err%d", wv.v)
+					}
+				}
+			}
+			awaits++
+			nodes++
+			fmt.Fprintf(sb, "%sdo\n%s  await Promise.wait(%s)\n%s  println \"%swait=ok\"\n%scatch Int() as e\n%s  println \"%swait=err${e}\"\n%send\n",
+				indent, indent, strings.Join(names, ", "), indent, label, indent, indent, label, indent)
+			expect = append(expect, fmt.Sprintf("%swait=%s", label, res))
 		}
 		for _, i := range order {
 			p := vis[i]
